@@ -384,6 +384,7 @@ def rule_stateless(r):
             getattr(r, i["status"])(i["file"], i["function"], i["construct"], i["line"], i["detail"])
 
 
+from . import extra3 as _x3
 RULES = [
     ("R-C08-stateless", 3, "no state carried between evaluations of a mixture", rule_stateless),
     ("R-C08-accum", 1, "init/accumulate decision independent of accumulated values", rule_accum),
@@ -391,11 +392,14 @@ RULES = [
     ("R-C08-layout", 20, "part slices agree with table construction order (linear forms)", rule_layout),
     ("R-C08-result", 2, "scale*total+background", rule_result),
     ("R-C08-precedence", 7, "expression parser precedence", rule_precedence),
+    ("R-C08-dim", 6, "kernel dimension comes from the q input or a component", _x3.rule_c08_dim),
 ]
 
 
 from . import shared
 RULES = RULES + shared.bundle('C08', ['values', 'stride', 'maxpd', 'driver'], ['details'])
+from . import folds as _folds
+RULES = RULES + [_folds.fold_rule('C08')]
 
 
 def run(tier="quick", replay=None):
